@@ -58,6 +58,30 @@ def run(chk: common.Check, tier: str):
         chk.violation("the shipped grammar_parser.py is not what the package generates from metagrammar.gram (as Python ASTs)",
                       {"first_difference": gm.first_diff(stage[0], SHIPPED.read_text()),
                        "how": "ast.dump(generate(read(metagrammar.gram))) vs ast.dump(src/pegen/grammar_parser.py)"}, True)
+    # the way the package itself regenerates the file (Makefile target regen-metaparser): the command line, in a
+    # fresh interpreter, writing to a scratch path
+    import subprocess, tempfile
+    with tempfile.TemporaryDirectory(prefix="pegverif-c08-") as td:
+        outp = os.path.join(td, "grammar_parser.py")
+        env = dict(os.environ, PYTHONPATH=str(common.REPO / "src"))
+        r = subprocess.run([common.PY, "-m", "pegen", "-q", str(META), "-o", outp], capture_output=True, text=True, env=env,
+                           cwd=td, timeout=300)
+        chk.count()
+        chk.note_case("regeneration through the command line")
+        if r.returncode != 0 or not os.path.exists(outp):
+            chk.violation("the package cannot regenerate its meta-parser: `python -m pegen -q metagrammar.gram -o ...` "
+                          f"exits with status {r.returncode}: {(r.stdout + r.stderr).strip()[-300:]}",
+                          {"command": "python -m pegen -q src/pegen/metagrammar.gram -o <scratch>", "status": r.returncode,
+                           "output": (r.stdout + r.stderr)[-1000:]}, True)
+        else:
+            cli_text = open(outp).read()
+            try:
+                same_cli = ast.dump(ast.parse(cli_text)) == ast.dump(ast.parse(SHIPPED.read_text()))
+            except SyntaxError:
+                same_cli = False
+            if not same_cli:
+                chk.violation("what `python -m pegen -q metagrammar.gram` writes is not the shipped grammar_parser.py (as Python ASTs)",
+                              {"first_difference": gm.first_diff(cli_text, SHIPPED.read_text())}, True)
     # stages 2, 3: regenerate with the regenerated parser
     parsers = []
     for k in (1, 2):
